@@ -255,10 +255,29 @@ def run(ctx):
     TIMEOUT_MS = 30000 if thorough else 10000
     rng = random.Random(ctx.seed)
     if thorough:
-        rs = recipes(4, 2)
-        extra = [r for r in recipes(3, 3) if depth(r) == 3]
-        rng.shuffle(extra)
-        rs = rs + extra[:1500]
+        # depth <= 2 with <= 3 leaves exhaustively; 4-leaf and depth-3 trees seed-sampled (enumerating them does not fit in memory)
+        rs = recipes(3, 2)
+        d1 = [r for r in rs if depth(r) == 1]
+        d2 = [r for r in rs if depth(r) == 2]
+        pool = [r for r in rs if depth(r) <= 1]
+        extra = set()
+        tries = 0
+        while len(extra) < 12000 and tries < 400000:
+            tries += 1
+            k = rng.random()
+            if k < 0.45:      # depth 2, up to 4 leaves
+                a, b = rng.choice(d1), rng.choice(pool)
+                r = (rng.choice(["add", "mul", "min", "max", "pow"]), a, b)
+                if rng.random() < 0.3:
+                    r = (rng.choice(["add", "mul", "min"]), a, b, rng.choice([x for x in pool if depth(x) == 0]))
+            elif k < 0.9:     # depth 3
+                a, b = rng.choice(d2), rng.choice(pool)
+                r = rng.choice([(rng.choice(["add", "mul", "min", "max", "pow"]), a, b), ("abs", a), ("fn", "sin", a), ("pow", a, ("c", rng.choice(["2", "-1", "1/2"]))), ("pow", b, a)])
+            else:
+                r = (rng.choice(["add", "mul"]), rng.choice(d2), rng.choice(d2))
+            if n_leaves(r) <= 4 and r not in extra:
+                extra.add(r)
+        rs = rs + sorted(extra, key=str)
     else:
         rs = recipes(3, 2)
         if len(rs) > 900:
@@ -285,8 +304,8 @@ def run(ctx):
     ctx.functions_encoded = ["Quantity.__init__", "collect_quantity_factor_and_dimension", "_collect_quantity", "_collect_mul", "_collect_pow", "_collect_add",
                              "_collect_abs", "_collect_min_max", "_collect_function", "_unsupported_derivative", "_collect_default", "_elementwise_wrapper"]
     ctx.stubs = list(lift.STANDARD_STUBS)
-    ctx.bounds = [f"trees with <= {4 if thorough else 3} leaves and depth <= 2 over Add/Mul/Pow/Abs/Min/Max/exp/sin (2- and 3-ary sums/products/min); "
-                  f"{'depth-3 trees sampled by seed (1500)' if thorough else 'depth-2 trees capped at 900 by seed'}",
+    ctx.bounds = ["trees with <= 3 leaves and depth <= 2 over Add/Mul/Pow/Abs/Min/Max/exp/sin (2- and 3-ary sums/products/min): "
+                  f"{'all; plus 12000 seed-sampled trees with <= 4 leaves and depth <= 3' if thorough else 'depth <= 1 all, depth 2 capped at 900 by seed'}",
                   "leaf scale factors: all reals; leaf dimensions: all real 8-vectors; exponents: symbolic number, quantity, or constants 2, -1, 1/2",
                   f"z3 timeout {TIMEOUT_MS} ms"]
     ctx.outside = ["infinite/NaN leaf values (symbolic reals are finite)", "complex scale factors", "values outside the definedness domain of a power (0**-1)",
